@@ -349,18 +349,18 @@ class Inliner:
                         and not isinstance(st.targets[0], ast.Name):
                     rep = self.expand(st.value, caller, None, False)
                     if rep is not None:
-                        tmp = self._last_target(rep)
-                        rep = rep + [ast.copy_location(ast.Assign(targets=st.targets, value=ast.Name(id=tmp, ctx=ast.Load())), st)]
+                        rep, rv = self._result(rep)
+                        rep = rep + [ast.copy_location(ast.Assign(targets=st.targets, value=rv), st)]
                 elif isinstance(st, ast.Return) and isinstance(st.value, ast.Call):
                     rep = self.expand(st.value, caller, None, False)
                     if rep is not None:
-                        tmp = self._last_target(rep)
-                        rep = rep + [ast.copy_location(ast.Return(value=ast.Name(id=tmp, ctx=ast.Load())), st)]
+                        rep, rv = self._result(rep)
+                        rep = rep + [ast.copy_location(ast.Return(value=rv), st)]
                 elif isinstance(st, ast.Expr) and isinstance(st.value, ast.Yield) and isinstance(st.value.value, ast.Call):
                     rep = self.expand(st.value.value, caller, None, False)
                     if rep is not None:
-                        tmp = self._last_target(rep)
-                        rep = rep + [ast.copy_location(ast.Expr(value=ast.Yield(value=ast.Name(id=tmp, ctx=ast.Load()))), st)]
+                        rep, rv = self._result(rep)
+                        rep = rep + [ast.copy_location(ast.Expr(value=ast.Yield(value=rv)), st)]
                 elif isinstance(st, ast.Expr) and isinstance(st.value, ast.YieldFrom) and isinstance(st.value.value, ast.Call):
                     rep = self.expand(st.value.value, caller, None, True)
             if rep is None and depth > 0 and isinstance(st, (ast.Assign, ast.AugAssign, ast.AnnAssign, ast.Return, ast.Expr)):
@@ -444,6 +444,16 @@ class Inliner:
                         return rep + [new_st]
             effects_before = True
         return None
+
+    def _result(self, rep):
+        """(statements, result expression) of an expanded helper: when its last statement is `<temp> = <name>` the name itself
+        is the result (no copy through a temporary)."""
+        tmp = self._last_target(rep)
+        if rep and isinstance(rep[-1], ast.Assign) and isinstance(rep[-1].targets[0], ast.Name) and rep[-1].targets[0].id == tmp \
+                and isinstance(rep[-1].value, ast.Name) and \
+                not any(isinstance(n, ast.Name) and n.id == tmp for st in rep[:-1] for n in ast.walk(st)):
+            return rep[:-1], rep[-1].value
+        return rep, ast.Name(id=tmp, ctx=ast.Load())
 
     def _last_target(self, rep):
         # the name assigned by the tail of an expanded helper
